@@ -22,6 +22,9 @@ mod verif_proto_std {
         Ok(guard)
     }
     fn stub_notify_all(_cv: &std::sync::Condvar) { unsafe { NOTIFIES += 1; } }
+    // waking a single waiter is not enough: callers and the reloader wait on the same condition variable
+    fn stub_notify_one(_cv: &std::sync::Condvar) { unsafe { NOTIFY_ONES += 1; } }
+    static mut NOTIFY_ONES: usize = 0;
 
     // @h name=stdlock_woken_waiter_rechecks tier=quick feat=std timeout=600 props=C08 role=std+locks:+a+woken+waiter+re-checks+its+condition
     #[kani::proof]
@@ -43,6 +46,7 @@ mod verif_proto_std {
     #[kani::unwind(4)]
     #[kani::stub(std::sync::Condvar::wait, stub_wait)]
     #[kani::stub(std::sync::Condvar::notify_all, stub_notify_all)]
+    #[kani::stub(std::sync::Condvar::notify_one, stub_notify_one)]
     fn stdlock_monitor_discipline() {
         let answers = Answers::default();
         let tok: usize = kani::any();
